@@ -111,6 +111,12 @@ func init() {
 				at := r.Intn(len(p.Sizes))
 				p.Sizes = append(p.Sizes[:at:at], append([]int{big}, p.Sizes[at:]...)...)
 				p.Sizes = append(p.Sizes, Pick(r, []int{1, 17, 300}))
+				if rb := r.Sub("biglast"); rb.Chance(0.4) {
+					// ... or as the last object of the stream, its final bytes often arriving together with io.EOF
+					// (a sub-stream: the plans of earlier versions stay what they were)
+					p.Sizes = append(append(p.Sizes[:at:at], p.Sizes[at+1:len(p.Sizes)-1]...), big)
+					p.EOFLast = rb.Chance(0.7)
+				}
 			}
 			switch r.Intn(7) {
 			case 0: // whole
